@@ -444,17 +444,20 @@ theorem lastRow_withPar (Q : Rat → Prop) (nan : Bool) (segs : List Seg) (x : R
     (r : Option (List (Name × Rat))) (hq : Q x)
     (hs : ∀ s, s ∈ segs → ∃ y, Q y ∧ s.pars = plainOf (omInsert c0.pars p (.plain y)))
     (h : lastRow nan (withPar c0 p x) segs = .ok (c', r)) : ∃ x', Q x' ∧ c' = withPar c0 p x' := by
-  unfold lastRow at h
+  unfold lastRow viewKeep at h
   cases h1 : viewSegs nan (withPar c0 p x) segs with
   | error e => rw [h1] at h; cases h
   | ok rr =>
     obtain ⟨c1, rs⟩ := rr
     rw [h1] at h
     simp only at h
-    obtain ⟨x', hq', hx'⟩ := viewSegs_withPar c0 p v0 hnd hp Q nan segs x c1 rs hq hs h1
+    obtain ⟨x', _, hx'⟩ := viewSegs_withPar c0 p v0 hnd hp Q nan segs x c1 rs hq hs h1
+    -- the view hands the model its previous parameters back: `p` is `x` again
+    have hback : ({ c1 with pars := (withPar c0 p x).pars } : Content) = withPar c0 p x := by
+      rw [hx']; rfl
     cases nan with
-    | true => simp at h; exact ⟨x', hq', by rw [← h.1, hx']⟩
-    | false => simp at h; exact ⟨x', hq', by rw [← h.1, hx']⟩
+    | true => simp at h; exact ⟨x, hq, by rw [← h.1, hback]⟩
+    | false => simp at h; exact ⟨x, hq, by rw [← h.1, hback]⟩
 
 end
 
@@ -561,24 +564,14 @@ theorem snapshot_ok (c : Content) (p : List (Name × Rat)) (h : snapshot c = .ok
 theorem ssWorker_ok (cfg : EulerCfg) : WorkerOK (ssWorker cfg) := by
   intro c c' r h
   simp only [ssWorker] at h
-  unfold ssRun at h
-  obtain ⟨ig, _, h⟩ := bind_ok h
-  by_cases hf : ig.fail = true
-  · simp only [hf, if_true, pure, Except.pure] at h
-    cases h
-    exact ⟨rfl, by intro segs hs; cases hs⟩
-  · simp only [hf, Bool.false_eq_true, if_false] at h
-    obtain ⟨⟨t, y⟩, _, h⟩ := bind_ok h
-    simp only at h
-    obtain ⟨p, hp, h⟩ := bind_ok h
-    simp only [pure, Except.pure] at h
-    cases h
-    refine ⟨rfl, ?_⟩
-    intro segs hs s hm
-    cases hs
-    simp at hm
-    subst hm
-    exact snapshot_ok c p hp
+  obtain ⟨h1, h2⟩ := ssRun_spec cfg c c' r h
+  refine ⟨h1, ?_⟩
+  intro segs hs s hm
+  obtain ⟨p, last, hp, hseg⟩ := h2 segs hs
+  subst hseg
+  simp at hm
+  subst hm
+  exact snapshot_ok c p hp
 
 theorem foldCols_eq_mapM (f : Content → Name → Except Err (Content × Column)) (c : Content)
     (hf : ∀ p c' col, f c p = .ok (c', col) → c' = c) :
